@@ -31,12 +31,13 @@ import (
 
 // C06Shape is one request shape.
 type C06Shape struct {
-	Kind      string `json:"kind"`                // sign, multisign, att, atts, prop
-	ByKey     bool   `json:"by_key"`              // addressing
-	Lock      string `json:"lock"`                // unlocked, locked-known, locked-unknown (applies to account 1, or the only account)
-	Rec       string `json:"rec"`                 // none, valid, refusing-first, or one of c06Undecodable (record planted under the key of account 1 / the only one)
-	Malformed string `json:"malformed,omitempty"` // data31, domain31: hashing fails after approval
-	Closed    bool   `json:"closed,omitempty"`    // store closed before the request
+	Kind      string `json:"kind"`                    // sign, multisign, att, atts, prop
+	ByKey     bool   `json:"by_key"`                  // addressing
+	Lock      string `json:"lock"`                    // unlocked, locked-known, locked-unknown (applies to account 1, or the only account)
+	Rec       string `json:"rec"`                     // none, valid, refusing-first, or one of c06Undecodable (record planted under the key of account 1 / the only one)
+	Malformed string `json:"malformed,omitempty"`     // data31, domain31: hashing fails after approval
+	Closed    bool   `json:"closed,omitempty"`        // store closed before the request
+	Trace     bool   `json:"trace_logging,omitempty"` // the instance logs at trace level (otherwise: logging off)
 }
 
 func (s C06Shape) String() string {
@@ -510,6 +511,9 @@ func c06Explore(r *c06Rig, shape C06Shape, bound int) c06ShardOut {
 				devs = append(devs, fmt.Sprintf("%s#%d", d.Site, d.Choice))
 			}
 			key := fmt.Sprintf("%s|%s|%s|%s|%s|%v|devs=%s|%s", shape.Kind, addrName(shape.ByKey), shape.Lock, shape.Rec, shape.Malformed, shape.Closed, strings.Join(devs, "+"), firstWords(v, 6))
+			if shape.Trace {
+				key += "|logging=trace"
+			}
 			if !seen[key] {
 				seen[key] = true
 				out.Viols = append(out.Viols, c06Viol{Key: key, What: fmt.Sprintf("shape %s, deviations [%s]: %s (wire %v, service %v)", shape, strings.Join(devs, " "), v, obs.wireStates, obs.svcResults), Choices: c.Choices()})
@@ -561,13 +565,31 @@ func C06(tier string) int {
 			fmt.Printf("SHARD-ERROR %v\n", err)
 			return 2
 		}
-		defer r.close()
 		enc := json.NewEncoder(os.Stdout)
 		for i, s := range shapes {
 			if i%n != sh {
 				continue
 			}
 			o := c06Explore(r, s, bound)
+			fmt.Print("SHARD-RESULT ")
+			_ = enc.Encode(o)
+		}
+		r.close()
+		// The same shapes on an instance that logs at trace level (whether a request fails closed must not depend on
+		// what is logged); every second shape in the quick tier.
+		rig.Verbose(true)
+		rv, err := newC06Rig()
+		if err != nil {
+			fmt.Printf("SHARD-ERROR %v\n", err)
+			return 2
+		}
+		defer rv.close()
+		for i, s := range shapes {
+			if i%n != sh || (tier != "thorough" && (i/n)%2 == 1) {
+				continue
+			}
+			s.Trace = true
+			o := c06Explore(rv, s, bound)
 			fmt.Print("SHARD-RESULT ")
 			_ = enc.Encode(o)
 		}
@@ -692,7 +714,7 @@ func spawnShards[T any](id, tier string, njobs int) ([]T, error) {
 	if firstErr != nil {
 		return results, firstErr
 	}
-	if len(results) != njobs {
+	if len(results) < njobs {
 		return results, fmt.Errorf("got %d shard results for %d jobs", len(results), njobs)
 	}
 	return results, nil
@@ -710,6 +732,9 @@ func init() {
 			return 2
 		}
 		runtime.GOMAXPROCS(1)
+		if rp.Shape.Trace {
+			rig.Verbose(true)
+		}
 		r, err := newC06Rig()
 		if err != nil {
 			fmt.Println(err)
